@@ -19,8 +19,14 @@ TSmall == [name |-> "small", maxlen |-> 3, paths2 |-> { <<"f">>, <<"d", "x">>, <
     D(5, R, "d"), F(6, R, "f"), L(7, R, "l", <<"d">>), L(8, 5, "up", <<"..">>)
   >>]
 
-const_TreesQuick == <<TOps, TSmall>>
-const_TreesThorough == <<TOps3, TSmall>>
+\* names that merely look like "." and "..": "..." and "...." are ordinary directory names (same-named entries in the
+\* root and in ".../" tell the two parents apart)
+TDots == [name |-> "dots", maxlen |-> 3, paths2 |-> { <<"x">>, <<"...", "x">>, <<"...", "y">>, <<"y">> }, nodes |-> <<
+    D(5, R, "..."), F(6, 5, "x"), F(7, R, "x"), D(8, 5, "...."), D(9, R, "e")
+  >>]
+
+const_TreesQuick == <<TOps, TSmall, TDots>>
+const_TreesThorough == <<TOps3, TSmall, TDots>>
 
 CreateOps == { [op |-> "create", kind |-> k] : k \in {"file", "dir", "fifo", "lnk", "hard"} }
 CFOps == { [op |-> "create_file", acc |-> "RDWR", excl |-> x, opath |-> FALSE, odir |-> FALSE] : x \in BOOLEAN }
